@@ -6,6 +6,7 @@ from sa.algebra import Rat, Poly, Translator, AlgebraError, parse_expr
 from sa.extract import single_assignments, inline, names_in
 from sa.srcmodel import own_nodes, dotted, positional_params, func_params, bind_call
 from sa.report import AnalysisError
+from sa import miniexec as mx
 
 EXPLANATION = (
     "Decides, for all grids, densities and proportions: (1) deposition identity - in _admixture_intermediates "
@@ -170,19 +171,59 @@ def check_deposition(rep, prog, m):
     rep.ob('R-ALG', '_admixture_intermediates mass', okm, 'frac_lower*norm*(delz0+delz1)/2 + frac_upper*norm*(delz1+delz2)/2 = %s' % total.canon()[:60], rel, fn.lineno,
            what='integrating the new axis out with the trapezoid rule returns the old density')
     rep.ob('R-FLOW', '_admixture_intermediates return', True, '(lower, upper, frac_lower, frac_upper, norm): each position satisfies its identity above', rel, fn.lineno, what='returns (lower, upper, frac_lower, frac_upper, norm)')
-    # phi_1D_to_2D
+    # phi_1D_to_2D: what is stored on the diagonal (abstract execution; the index of the diagonal is a loop variable over
+    # range(1, pts-1) or the vector numpy.arange(1, pts-1) used on both axes - the same element statements either way)
     f = prog.func(PM, 'phi_1D_to_2D')
-    lp = [n for n in own_nodes(f) if isinstance(n, ast.For)]
-    ok = False
-    if lp:
-        b = lp[0].body[0]
-        try:
-            v = Translator().tr(b.value)
-            ok = ast.unparse(b.targets[0]) == 'phi_2D[ii, ii]' and (v * parse_expr('(xx[ii + 1] - xx[ii - 1])/2')).equals(Translator().tr(ast.parse('phi_1D[ii]', mode='eval').body)) and \
-                ast.unparse(lp[0].iter) == 'range(1, pts - 1)'
-        except AlgebraError:
-            ok = False
-    rep.ob('R-ALG', 'phi_1D_to_2D', ok, ast.unparse(lp[0].body[0]) if lp else '', rel, f.lineno, what='diagonal value times the trapezoid weight of the node equals the 1-D density')
+    ok, det = False, ''
+    try:
+        it = _interp(prog, m, symbolic_loops=True)
+        params = positional_params(f)
+        paths = [p_ for p_ in it.run(f, {p_: mx.Sym(p_) for p_ in params}) if p_[0][0] == 'return']
+        if len(paths) != 1:
+            raise mx.Undecidable('%d returning paths' % len(paths))
+        outcome, events, _d = paths[0]
+        res = outcome[1]
+        zc = mx.call_of(res, 'zeros')
+        stores = [e for e in events if e[0] == 'setitem' and mx.show(e[4]) == mx.show(res)]
+        if zc is None or len(stores) != 1 or not (isinstance(stores[0][2], tuple) and len(stores[0][2]) == 2):
+            raise mx.Undecidable('%d stores into the result' % len(stores))
+        k0, k1 = stores[0][2]
+        var = mx.show(k0)
+        rngs = {e[2]: e[3] for e in events if e[0] == 'loop' and len(e) > 3}
+        span = mx.call_of(rngs[var], 'range') if var in rngs else mx.call_of(k0, 'arange')
+        pts = None
+        for e in events:
+            pass
+
+        def strip_arr(v):
+            c = mx.call_of(v, 'asarray') or mx.call_of(v, 'asanyarray')
+            return strip_arr(c[0][0]) if c is not None and c[0] else v
+
+        def leaf(x):
+            x = strip_arr(x)
+            if mx.show(x) == var:
+                return Rat.atom('i')
+            if isinstance(x, mx.Sym) and x.struct and x.struct[0] == 'index' and mx.show(strip_arr(x.struct[1])) in ('phi_1D', 'xx') and not isinstance(x.struct[2], (tuple, slice)):
+                return Rat.atom('%s{%s}' % (mx.show(strip_arr(x.struct[1])), mx.to_rat(x.struct[2], leaf).canon()))
+            if isinstance(x, mx.Sym) and not x.struct and re.fullmatch(r'[A-Za-z_]\w*', x.text):
+                return Rat.atom(x.text)
+            c = mx.call_of(x, 'len')
+            if c is not None:
+                return Rat.atom('len(%s)' % mx.show(strip_arr(c[0][0])))
+            return None
+        val = mx.to_rat(stores[0][3], leaf)
+        half_w = (Rat.atom('xx{1 + i}') - Rat.atom('xx{-1 + i}')) * Rat.const(Fraction(1, 2))
+        okv = (val * half_w).equals(Rat.atom('phi_1D{i}'))
+        okd = mx.show(k0) == mx.show(k1)
+        oks = span is not None and len(span[0]) == 2 and span[0][0] == 1
+        shape = zc[0][0] if zc[0] else None
+        n_ = mx.to_rat(shape[0], leaf) if isinstance(shape, (tuple, list)) and len(shape) == 2 else None
+        oks = oks and n_ is not None and mx.to_rat(shape[1], leaf).equals(n_) and mx.to_rat(span[0][1], leaf).equals(n_ - Rat.const(1))
+        ok = okv and okd and oks
+        det = 'result[i, i] = %s for i in [1, %s)' % (val.canon()[:60], mx.show(span[0][1]) if span else '?')
+    except (mx.Undecidable, AlgebraError, KeyError) as e:
+        det = 'phi_1D_to_2D is not recognised: %s' % e
+    rep.ob('R-ALG', 'phi_1D_to_2D', ok, det, rel, f.lineno, what='diagonal value times the trapezoid weight of the node equals the 1-D density (interior nodes; the corners stay zero)')
 
 
 def check_helpers(rep, prog, m):
@@ -340,7 +381,10 @@ def check_constructors(rep, prog, m):
     for q, f in (('phi_2D_to_3D_split_1', '1'), ('phi_2D_to_3D_split_2', '0')):
         fn = prog.func(PM, q)
         ret = [n for n in own_nodes(fn) if isinstance(n, ast.Return)]
-        ok = len(ret) == 1 and isinstance(ret[0].value, ast.Call) and dotted(ret[0].value.func) == 'phi_2D_to_3D_admix' and [ast.unparse(a) for a in ret[0].value.args] == ['phi_2D', f, 'xx', 'xx', 'xx', 'deme_ids']
+        ok = len(ret) == 1 and isinstance(ret[0].value, ast.Call) and dotted(ret[0].value.func) == 'phi_2D_to_3D_admix'
+        if ok:
+            b_, problems_ = bind_call(prog.func(PM, 'phi_2D_to_3D_admix'), ret[0].value)
+            ok = not problems_ and {k: ast.unparse(v) for k, v in b_.items()} == {'phi': 'phi_2D', 'f1': f, 'xx': 'xx', 'yy': 'xx', 'zz': 'xx', 'deme_ids': 'deme_ids'}
         rep.ob('R-IDX', q, ok, ast.unparse(ret[0].value) if ret else '', rel, fn.lineno, what='pure split = admixture with proportion %s from population 1' % f)
     al = m.toplevel.get('phi_2D_to_3D')
     rep.ob('R-NAME', 'phi_2D_to_3D alias', bool(al) and ast.unparse(al[-1]) == 'phi_2D_to_3D_admix', 'alias of phi_2D_to_3D_admix', rel, 1, what='legacy alias binds the analysed function')
@@ -551,12 +595,38 @@ def check_pulse_paths(rep, prog, m):
 def check_reorder(rep, prog, m):
     rel = m.rel
     fn = prog.func(PM, 'reorder_pops')
-    txt = [ast.unparse(s) for s in fn.body if not (isinstance(s, ast.Expr) and isinstance(s.value, ast.Constant))]
-    okv = any(isinstance(s, ast.If) and ast.unparse(s.test) == 'sorted(neworder) != [_ + 1 for _ in range(phi.ndim)]' and any(isinstance(x, ast.Raise) for x in s.body) for s in fn.body)
-    sing = single_assignments(fn)
-    na = sing.get('newaxes')
-    okt = na is not None and ast.unparse(na) == '[_ - 1 for _ in neworder]' and any('phi.transpose(newaxes)' in t for t in txt)
-    rep.ob('R-IDX', 'PhiManip.reorder_pops', okv and okt, '; '.join(txt)[:200], rel, fn.lineno, what='neworder validated as a permutation of 1..D; axes transposed by neworder-1')
+    import itertools
+    from sa import miniexec as mx
+    from sa import tis
+    bad = []
+    try:
+        for D in (2, 3, 4):
+            cases = [list(p_) for p_ in itertools.permutations(range(1, D + 1))] + [[1] * D, list(range(0, D)), list(range(1, D)), list(range(1, D + 2)), list(range(2, D + 2))]
+            for order in cases:
+                valid = sorted(order) == list(range(1, D + 1))
+                it = _interp(prog, m)
+                phi = mx.Sym('phi', attrs={'ndim': D})
+                paths = it.run(fn, {'phi': phi, 'neworder': list(order)})
+                rets = [p_ for p_ in paths if p_[0][0] == 'return']
+                if not valid:
+                    if rets:
+                        bad.append('neworder=%s is accepted' % order)
+                    continue
+                if len(rets) != 1:
+                    bad.append('neworder=%s: %d returning paths' % (order, len(rets)))
+                    continue
+                idx = [mx.Sym('i%d' % k) for k in range(D)]
+                try:
+                    root, pidx = tis.at(rets[0][0][1], idx, lambda v: isinstance(v, mx.Sym) and v.text == 'phi' and not v.struct)
+                    okp = [mx.show(x) for x in pidx] == ['i%d' % order.index(a + 1) for a in range(D)]
+                except tis.Unfollowed:
+                    okp = False
+                if not okp:
+                    bad.append('neworder=%s returns %s' % (order, mx.show(rets[0][0][1])[:50]))
+    except mx.Undecidable as e:
+        bad.append('reorder_pops is not recognised: %s' % e)
+    rep.ob('R-IDX', 'PhiManip.reorder_pops', not bad, '; '.join(bad[:2]) if bad else 'neworder validated as a permutation of 1..D; new axis k is old axis neworder[k]-1 (2-4 dimensions, every permutation)', rel, fn.lineno,
+           what='neworder validated as a permutation of 1..D; axes transposed by neworder-1')
     from rules import c04
     c04.check_marginalisation(rep, prog)
 
